@@ -115,6 +115,19 @@ class Run(object):
     p = subprocess.run([sys.executable, '-m', 'vf', 'replay', path], env=env,
                        stdout=subprocess.PIPE, stderr=subprocess.STDOUT, timeout=600)
     if p.returncode != 1:
+      # The obligation was decided in a worker with its own PYTHONHASHSEED (pool.py); behaviour
+      # that depends on set iteration order reproduces only under such a seed. Try the worker
+      # seeds and pin the one that reproduces in the replay file.
+      base = int(os.environ.get('VERIF_SEED', '0') or 0)
+      for hs in range(base, base + 16):
+        body['hashseed'] = hs
+        with open(path, 'w') as fh:
+          json.dump(body, fh, indent=1, default=str)
+        p = subprocess.run([sys.executable, '-m', 'vf', 'replay', path], env=env,
+                           stdout=subprocess.PIPE, stderr=subprocess.STDOUT, timeout=600)
+        if p.returncode == 1:
+          break
+    if p.returncode != 1:
       self.harness_errors.append('replay of %s did not reproduce (exit %d): %s' % (
           path, p.returncode, p.stdout.decode(errors='replace')[-800:]))
       try:
